@@ -445,8 +445,9 @@ def run(ctx):
         bid = bid_at(lines, ln)
         which = "hang" if lines[ln - 1].get("a") == "hang" else "panic"
         ok, again = confirm(ctx, binary, scripts[bid], which, next_at(lines, ln))
-        if not ok:
-            raise vlib.InfraError("%s at trace line %d did not reproduce" % (which, ln))
+        if not ok:      # seen once, not again: recorded, no verdict
+            cov.setdefault("unreproduced", []).append({"what": which, "line": lines[ln - 1], "script": scripts[bid]})
+            continue
         ctx.report("C19:%s" % which, "Ping/Parse %s: %s" % (which, json.dumps(lines[ln - 1])[:400]),
                    {"script": scripts[bid], "failed": which, "next": next_at(lines, ln), "trace": again})
     # trace validation
@@ -469,9 +470,11 @@ def run(ctx):
         validated = ln - 1
         bid = bid_at(lines, ln)
         ok, again = confirm(ctx, binary, scripts[bid], which, next_at(lines, ln))
-        if not ok:
-            raise vlib.InfraError("property-level failure %s at trace line %d did not reproduce" % (which, ln))
-        ctx.report("C19:%s" % which, "real Ping contradicts %s: %s" % (which, json.dumps(lines[ln - 1])[:400]),
+        if not ok:      # seen once, not again: recorded, no verdict
+            cov.setdefault("unreproduced", []).append({"what": which, "line": lines[ln - 1], "script": scripts[bid],
+                                                       "trace": behaviour_lines(lines, ln)})
+        else:
+            ctx.report("C19:%s" % which, "real Ping contradicts %s: %s" % (which, json.dumps(lines[ln - 1])[:400]),
                    {"script": scripts[bid], "failed": which, "next": next_at(lines, ln), "trace": behaviour_lines(lines, ln)})
     else:
         raise vlib.InfraError("unexpected verdict %s" % (v,))
@@ -481,8 +484,8 @@ def run(ctx):
         bid = bid_at(lines, leaks[0])
         ok, again = confirm(ctx, binary, scripts[bid], "KF_SendFailsLeak", next_at(lines, leaks[0]))
         if not ok:
-            raise vlib.InfraError("waiter leak at trace line %d did not reproduce" % leaks[0])
-        for ln in leaks:
+            cov.setdefault("unreproduced", []).append({"what": "KF_SendFailsLeak", "line": lines[leaks[0] - 1], "script": scripts[bid]})
+        for ln in (leaks if ok else []):
             ctx.report("C19:KF_SendFailsLeak", "a ping whose send failed left its waiter registered: %s" % json.dumps(lines[ln - 1]),
                        {"script": scripts[bid_at(lines, ln)], "failed": "KF_SendFailsLeak", "trace": behaviour_lines(lines, ln)})
     nbeh = sum(1 for x in lines[:validated] if x.get("a") == "end")
